@@ -35,7 +35,7 @@ const (
 )
 
 // Trust configurations (C01 quantifies over them).
-var Trusts = []string{"meta1", "meta2enc", "metanouse", "pinned", "fp256", "fp512", "meta2desc", "metamulti", "metaroles", "fpprefix", "fpempty"}
+var Trusts = []string{"meta1", "meta2enc", "metanouse", "pinned", "fp256", "fp512", "meta2desc", "metamulti", "metaroles", "fpprefix", "fpempty", "metaski", "pinnedski"}
 
 // TrustsIDP: the configurations under which the fixture key "idp" is trusted.
 var TrustsIDP = []string{"meta1", "meta2enc", "metanouse", "pinned", "fp256", "fp512", "meta2desc", "metamulti", "metaroles"}
@@ -46,6 +46,8 @@ func TrustedKeys(trust string) []string {
 	case "fpprefix", "fpempty":
 		// a fingerprint that is not the fingerprint of any certificate trusts nothing
 		return nil
+	case "metaski", "pinnedski":
+		return []string{"idpski"}
 	case "meta2enc", "meta2desc", "metamulti":
 		return []string{"idp", "idp2"}
 	default:
@@ -145,6 +147,13 @@ func NewSP(c Config) *saml.ServiceProvider {
 		multi := kd("signing", wrap64(idp.CertB64()))
 		multi.KeyInfo.X509Data.X509Certificates = append(multi.KeyInfo.X509Data.X509Certificates, saml.X509Certificate{Data: wrap64(fix.Get("idp2").CertB64())})
 		desc.KeyDescriptors = []saml.KeyDescriptor{multi, kd("encryption", fix.Get("idpenc").CertB64())}
+	case "metaski":
+		// the IdP's certificate carries key identifiers (most real ones do)
+		desc.KeyDescriptors = []saml.KeyDescriptor{kd("signing", fix.Get("idpski").CertB64()), kd("encryption", fix.Get("idpenc").CertB64())}
+	case "pinnedski":
+		desc.KeyDescriptors = []saml.KeyDescriptor{kd("signing", fix.Get("idp2").CertB64())}
+		s := fix.Get("idpski").CertB64()
+		sp.IDPCertificate = &s
 	case "metaroles":
 		// the entity also acts in other roles, each with its own signing key: only the keys of the
 		// IDPSSODescriptor vouch for single sign-on messages (the other roles are added below)
